@@ -37,14 +37,14 @@ Inductive tid := TR | TA | TAW (i : nat) | TC | TW (i : nat) | TP | TU | TX (j :
 Inductive loc :=
 | LNext                      (* AnySource.nextFrameNum *)
 | LETrig                     (* AbacoSource.eTrigPackets (queue of external-trigger packets) *)
-| LTiming                    (* the groups' FrameTimingCorrepondence *)
+| LTiming                    (* the reader's own bookkeeping: the groups' FrameTimingCorrepondence and packet queues, lastread *)
 | LSeg (k i : nat)           (* channel i of block k: the demultiplexed samples and the DataSegment *)
 | LHdr (k : nat)             (* the rest of buffers message k / block k: nSamp, external triggers, err *)
 | LProc (i : nat)            (* DataStreamProcessor i: stream, trigger state, publisher, lastTrigList *)
 | LRec (k i ph : nat)        (* the records made by worker i in phase ph of block k *)
 | LRate (x : nat)            (* the counts slice of a TRIGGERRATE message *)
 | LArch                      (* AnySource.archiveBlock *)
-| LSnap (j : nat)            (* the copy of the j-th filled archive block *)
+| LSnap (j : nat)            (* the sample buffers of the j-th archive request and the copy of the filled block that shares them *)
 | LWs                        (* WritingState fields that ComputeState copies (Active, FilenamePattern, ...) *)
 | LWsCnt                     (* WritingState.externalTriggerNumberObserved *)
 | LWsPaused                  (* WritingState.Paused *)
@@ -202,7 +202,7 @@ Definition step (v : variant) (n : nat) (s : st) (a : act) : option (st * trace)
           else (if (qpc s =? 1) && (creq s =? qr s) then same 10 [Acq TC (MReq (qr s))] else None)
       | 2 => (* archiveNewDataBlock when an archive is being filled *)
           if aact s
-          then (let copy := rd TC LArch :: map (fun i => rd TC (LSeg (ck s) i)) (chans n) ++ [wr TC LArch] in
+          then (let copy := rd TC LArch :: map (fun i => rd TC (LSeg (ck s) i)) (chans n) ++ [wr TC LArch; wr TC (LSnap (aj s))] in
                 if c =? 0
                 then upd (cgo s) 3 (ck s) 0 0 0 (fun _ => false) (rateq s) (nrate s) (creq s) (wsl s) false (S (aj s)) (ago s)
                          (copy ++ (if v_arch_shared v
